@@ -52,3 +52,7 @@ int g_set_type, g_set_replace; const char *g_set_name, *g_set_str;
 
 /* completeness units of the JWK importers (C08): refusal record, well-formedness parameters */
 int g_wf_bad, g_wf_private, g_wf_maxlen, g_ec_degree;
+
+/* C16 __item_free unit: the two neighbours of the node (assigned by the harness) */
+#include "ll.h"
+ll_t *g_nb_prev, *g_nb_next;
